@@ -60,3 +60,26 @@ Definition expected_durable : list (string * string * N) :=
 Definition delete_arg_is_tip (d : string * string * string) : bool :=
   let '(_, _, how) := d in
   let n := String.length how in String.eqb (substring (n - 11) 11 how) "LastBlock()".
+
+(* arguments bound to writer parameters, one level of indirection (a function that receives something it calls Set/Del/Write on,
+   or hands to Commit/RevertDiff): a batch is fine, the database handle there would be a direct durable write that no
+   `x.database.Set(` pattern shows *)
+Definition expected_writer_args : list (string * string * string) := [
+  ("blockchain:Chain.AddBlock", "saveBlock", "batch");
+  ("blockchain:Chain.RemoveBlock", "removeBlock", "batch");
+  ("consensus/liskbft:Module.BeforeTransactionsExecute", "deleteBFTParams", "paramsStore");
+  ("consensus/liskbft:Module.BeforeTransactionsExecute", "deleteGeneratorKeys", "keysStore");
+  ("consensus:Executer.deleteBlock", "RemoveBlock", "batch");
+  ("consensus:Executer.deleteBlock", "RevertDiff", "batch");
+  ("consensus:Executer.processGenesisBlock", "AddBlock", "batch");
+  ("consensus:Executer.processGenesisBlock", "Commit", "batch");
+  ("consensus:Executer.processGenesisBlock", "Commit", "ctx.block.Header.StateRoot");
+  ("consensus:Executer.processValidated", "AddBlock", "batch");
+  ("consensus:Executer.processValidated", "Commit", "batch");
+  ("consensus:Executer.processValidated", "Commit", "c.chain.LastBlock().Header.StateRoot");
+  ("consensus:genesisStateExecuter.Commit", "Commit", "&labi.CommitRequest{ ContextID: c.contextID, StateRoot: []byte{}, ExpectedStateRoot: expectedStateRoot, DryRun: false, }");
+  ("consensus:stateExecuter.Commit", "Commit", "&labi.CommitRequest{ ContextID: c.contextID, StateRoot: currentStateRoot, ExpectedStateRoot: expectedStateRoot, DryRun: false, }")
+].
+
+Definition writer_arg_is_database (d : string * string * string) : bool :=
+  let '(_, _, arg) := d in ends_with_database arg.
